@@ -187,6 +187,20 @@ CLAIMED["C15"] = dict(
     technique="Coq proof over executable actor-bookkeeping model + vm_compute correspondence (K-actor) + monitor",
     design_ref="DESIGN.md section 5 C15")
 
+CLAIMED["C18"] = dict(
+    category="proof",
+    text="Target spellings: a Coq model of the resolver's four strategies over the tree of state keys with theorems for ALL trees and sources - "
+         "'#root.path', '.rel' (relative to the parent), '.', a path below the source, a sibling key / dotted path (under exactly the side "
+         "conditions the rewriter checks: not caught by the source's own subtree or key) each resolve to the state they are documented to name, and "
+         "a resolved target always exists; the model is tied to resolver.py by K-resolve (every state x valid and junk spellings, evaluated in "
+         "Coq). Whole configs: the machine built from a config and from each random combination of respellings (transition / action / guard-cond / "
+         "always-empty-event / delay-key / omitted-initial / invoke / target forms) are extracted as labelled trees and compared in Coq - one "
+         "kernel-checked certificate per pair, with the reflection theorem C18_tree_equality_reflects - and run on both engines on random event "
+         "sequences. Malformed input: every subtree of a config replaced by values of every JSON type; no raw exception may escape, rejection may "
+         "not depend on truthiness (monitor, not a theorem). Three raw-exception defects found this way were repaired by a fix: commit (F14).",
+    technique="Coq proof (resolver model; reflected tree equality) + vm_compute correspondence (K-resolve) + per-pair translation-validation certificates + corruption monitor",
+    design_ref="DESIGN.md section 5 C18")
+
 PENDING_REASON = "not claimed yet: the check for this property is still being built in this round (DESIGN.md section 5 has the plan)"
 
 
